@@ -15,6 +15,7 @@ func init() {
 			"(bounded-copy-count) every size-bounded copy (io.CopyBuffer / CopyBufferPool / io.Copy from an io.LimitedReader or io.LimitReader) in the appliers keeps its byte count and compares it — a short copy " +
 			"means the delta or the base ended inside an instruction and must not be reported as success; (delta-guard-agreement) each applier consults invalidSize for both instruction kinds and invalidOffsetSize for copies, " +
 			"rejects the zero command with ErrDeltaCmd, checks the declared source size, and rejects trailing bytes after the instruction loop; the guard sets of the three appliers are equal. " +
+			"(base-size-known) patchDeltaWriter compares the declared source size with the base only behind a *bytes.Reader type assertion, so every base handed to it is statically a *bytes.Reader (argument type, or all returns of the producing function). " +
 			"Not decided: DiffDelta∘PatchDelta = identity; equality with git's patch_delta on all streams.",
 		Assumptions: []string{"invalidSize/invalidOffsetSize compute what their names say"},
 		Run:         runC06,
